@@ -2,7 +2,7 @@
 SPEC = dict(
     title="The CDC disk queue is ordered, durable and duplicate-suppressing",
     pkg="./cdc", files=["cdc/c26_verif_test.go"],
-    rule="hand-picked histories plus random histories of 10-60 operations (enqueue fresh/stale/far below, delete_range aimed at stored indices/"
+    rule="hand-picked histories; a backlog sweep (for every backlog size 1..40 (thorough 1..120) of stored-but-unreceived items: one more enqueue, room made by one receive / a delete_range of the first item / a receive plus a delete_range into the middle, further enqueues, full drain inside the open); random backlog histories (1-3 rounds of: enqueue burst of 1..80 without receiving, partial drain of k items, delete_range into the backlog, 1-20 more enqueues with a few receives, sometimes a full drain or a reopen); plus random histories of 10-60 operations (enqueue fresh/stale/far below, delete_range aimed at stored indices/"
          "above the highest/0, receive, reopen; in child-process mode also SIGKILL while idle and 0-3 ms into an enqueue or delete_range), each "
          "ending with a restart and a full drain; after every operation Len/FirstKey/HighestKey/HasNext are read; a history is non-trivial when it has "
          ">= 1 stale enqueue, >= 1 delete_range that removed something, >= 2 received events and >= 1 reopen or kill; distinct by operation list",
